@@ -106,6 +106,11 @@ def main(argv=None):
     from gvc import induct
     theories = sorted({th for k in keys if k in REG.by_name for th in V.theories_of(REG.by_name[k])})
     lemma_res = induct.prove_lemmas(theories, timeout=timeout)
+    if tier == 'thorough':          # vacuity guard for the proof scripts: no hypothesis set may be inconsistent with the theory
+        ncan, fired = induct.lemma_canaries(theories, timeout=5)
+        print('  lemma-script canaries: %d, inconsistent: %s' % (ncan, fired or 'none'))
+        if fired:
+            print('CHECKER-ERROR inconsistent hypotheses in proof scripts: %s' % ', '.join(fired)); sys.exit(3)
     # --- deductive part
     todo_c = []
     for k in keys:
